@@ -374,6 +374,27 @@ func (cs *consume) callConsumes(call ssa.CallInstruction) bool {
 	if !cs.d.member[f] {
 		return false
 	}
+	// readExact(r, n): a helper that reads as many bytes as its parameter says consumes
+	// when the call site gives it a positive constant
+	if j, ok := movesParamBytes(f, cs.d.readN, nil); ok {
+		args := call.Common().Args
+		if k, isK := core.ConstInt(args[j]); !isK || k < 1 {
+			return false
+		}
+		isRead := func(in ssa.Instruction) bool {
+			c2, ok := in.(ssa.CallInstruction)
+			return ok && core.IsCallTo(c2, cs.d.readN)
+		}
+		for _, ret := range core.Returns(f) {
+			if !successReturn(ret) && errorReturnConst(ret) {
+				continue
+			}
+			if !core.MustPassBefore(f, ret, isRead) {
+				return false
+			}
+		}
+		return true
+	}
 	return cs.fn(f)
 }
 
